@@ -587,6 +587,17 @@ def run(tier, only=None, library=False):
             if isinstance(ct, tuple):
                 raise AnalysisBroken("cast type of %s is not a string literal" % row["tag"])
             defs.append("-DVERIF_CAST_%s=(%s)" % (short, ct))
+            # B12: a cast row names the run-time type of its result class (FiChar, FiSInt, ...), whose width and signedness
+            # foam_c.h fixes for every evaluator; a bare C type (`char` is signed on x86, FiChar is unsigned char) converts
+            # differently from the interpreter, which keeps the value in a FiChar member
+            if str(ct).startswith("Fi"):
+                rep.ok("B12", "cast-to-runtime-type:%s" % short, sample={"type": ct})
+            else:
+                rep.violation("B12", "cast-to-runtime-type:%s" % short, "genc.c (ccBValInfoTable, %s)" % row["tag"],
+                              "the generated C converts with `(%s)`, a bare C type, where the interpreter stores the result in the "
+                              "run-time type of its class: for CharNum `(char) 233` is -23 on this platform while FiChar is "
+                              "unsigned, so `char(233) pretend MachineInteger` prints -23 from an executable and 233 under the "
+                              "interpreter" % ct)
     try:
         f_probe = common.extract(probe, "compiler", all_trees=True, extra_flags=defs)
     finally:
